@@ -48,7 +48,9 @@ var oracleC07 = oracle{
 				want = append([]ref.Hash{n.Hash}, want...)
 			}
 		}
-		if st.Op.K != "sub" && st.Op.K != "growlag" && st.Op.K != "fullrace" && len(want) != 0 {
+		// (grow / growside / growx submit several headers: what they announce in total is again the
+		// new best chain above the fork point with the chain reported before)
+		if st.Op.K != "sub" && st.Op.K != "growlag" && st.Op.K != "fullrace" && st.Op.K != "grow" && st.Op.K != "growside" && st.Op.K != "growx" && len(want) != 0 {
 			c.fail("maintenance-changed-tip", opClass(st), "a maintenance operation changed the reported tip")
 			return
 		}
